@@ -326,20 +326,21 @@ pub fn parse_and_bind<R: FsModuleResolver>(
         let renamed = unresolved.renamed;
         let js_word = unresolved.name.clone();
         let k = unresolved.name.to_string();
+        // a name in an export list may stand for a type and for a value at once
+        // (an enum; a const and a type alias of the same name): both meanings are exported
+        let mut found = false;
         if let Some(ts_type) = locals.content.type_aliases.get(&k) {
             symbol_exports.insert_type(
                 renamed.to_string(),
                 Rc::new(SymbolExport::TsType {
                     decl: ts_type.clone(),
                     original_file: file_name.clone(),
-                    name: k,
+                    name: k.clone(),
                     span: ts_type.span,
                 }),
             );
-            continue;
-        }
-
-        if let Some(enum_) = locals.content.enums.get(&k) {
+            found = true;
+        } else if let Some(enum_) = locals.content.enums.get(&k) {
             symbol_exports.insert_type(
                 renamed.to_string(),
                 Rc::new(SymbolExport::TsEnumDecl {
@@ -347,10 +348,15 @@ pub fn parse_and_bind<R: FsModuleResolver>(
                     original_file: file_name.clone(),
                 }),
             );
-            continue;
-        }
-
-        if let Some(intf) = locals.content.interfaces.get(&k) {
+            symbol_exports.insert_value(
+                renamed.to_string(),
+                Rc::new(SymbolExport::TsEnumDecl {
+                    decl: enum_.clone(),
+                    original_file: file_name.clone(),
+                }),
+            );
+            found = true;
+        } else if let Some(intf) = locals.content.interfaces.get(&k) {
             symbol_exports.insert_type(
                 renamed.to_string(),
                 Rc::new(SymbolExport::TsInterfaceDecl {
@@ -359,7 +365,7 @@ pub fn parse_and_bind<R: FsModuleResolver>(
                     span: intf.span,
                 }),
             );
-            continue;
+            found = true;
         }
 
         if let Some(v) = locals.content.exprs.get(&k) {
@@ -372,10 +378,8 @@ pub fn parse_and_bind<R: FsModuleResolver>(
                     original_file: file_name.clone(),
                 }),
             );
-            continue;
-        }
-
-        if let Some(v) = locals.content.exprs_decls.get(&k) {
+            found = true;
+        } else if let Some(v) = locals.content.exprs_decls.get(&k) {
             symbol_exports.insert_value(
                 renamed.to_string(),
                 Rc::new(SymbolExport::ExprDecl {
@@ -385,6 +389,9 @@ pub fn parse_and_bind<R: FsModuleResolver>(
                     original_file: file_name.clone(),
                 }),
             );
+            found = true;
+        }
+        if found {
             continue;
         }
 
